@@ -371,6 +371,31 @@ def check_primitives(prog):
                 inits[x.targets[0].id] = v
     if sorted(inits.values()) != [0, 1]:
         probs.append(Problem("L1", "decodeLength", "init", "accumulator and multiplier must start at 0 and 1 (found %s)" % inits, r.node))
+    # guards that reject: a bound on the multiplier must admit every legal 4-byte length
+    loop = plain[0] if plain else None
+    if loop is not None:
+        body = list(loop.body)
+        mul_idx = [i for i, x in enumerate(body) if isinstance(x, ast.AugAssign) and isinstance(x.op, (ast.Mult, ast.LShift))]
+        mulvar = U(body[mul_idx[0]].target) if mul_idx else None
+        for i, x in enumerate(body):
+            if isinstance(x, ast.If) and any(isinstance(y, ast.Raise) for y in x.body) and isinstance(x.test, ast.Compare) and len(x.test.ops) == 1:
+                ok, c = r.fold(x.test.comparators[0])
+                lhs = U(x.test.left)
+                opn = type(x.test.ops[0]).__name__
+                if ok and isinstance(c, int) and lhs == mulvar and mul_idx:
+                    legal_max = 128 ** 4 if i > mul_idx[0] else 128 ** 3
+                    rejects_legal = (opn == "Gt" and c < legal_max) or (opn == "GtE" and c <= legal_max)
+                    if rejects_legal:
+                        probs.append(Problem("L1", "decodeLength", "length-guard", "the malformed-length guard `%s` is evaluated %s the multiplier is advanced, "
+                                             "where legal values reach %d: every 4-byte remaining length (2097152..268435455) is rejected" % (
+                                                 U(x.test), "after" if i > mul_idx[0] else "before", legal_max), x))
+                elif ok is False or lhs != mulvar:
+                    probs.append(Problem("L1", "decodeLength", "extra-raise", "decodeLength raises under `%s`: part of the domain 0..268435455 may be rejected" % U(x.test), x))
+    for fname in ("decode16Int", "decodeString", "encode16Int"):
+        fn = mod.funcs[fname]
+        for x in ast.walk(fn.node):
+            if isinstance(x, ast.Raise):
+                probs.append(Problem("L1", fname, "extra-raise", "%s raises: part of its domain is rejected" % fname, x))
     if el["modulus"] != dl["step"] or el["cont"] != dl["test"]:
         probs.append(Problem("L1", "encodeLength/decodeLength", "pair", "encoder radix %s / continuation %s disagree with decoder step %s / test bit %s" % (
             el["modulus"], el["cont"], dl["step"], dl["test"]), r.node))
